@@ -5,10 +5,20 @@ import (
 	"strings"
 )
 
-var (
-	sanitizeSetPassword = regexp.MustCompile(`(?i)password\s+for[^=]*=\s+(["']?[^\s"]+["']?)`)
+// A password is redacted as one complete string literal as the scanner reads it
+// (any characters, backslash escapes), which may follow "=" or PASSWORD without
+// whitespace. Anything else that stands in the place of the password (invalid
+// statements) is redacted up to the next whitespace, as before.
+const (
+	sanitizeString = `'(?:[^'\\\n]|\\.)*'`
+	sanitizeValue  = `(?:\s*(` + sanitizeString + `)|\s+(["']?[^\s"]+["']?))`
+	sanitizeIdent  = `"(?:[^"\\\n]|\\.)*"`
+)
 
-	sanitizeCreatePassword = regexp.MustCompile(`(?i)with\s+password\s+(["']?[^\s"]+["']?)`)
+var (
+	sanitizeSetPassword = regexp.MustCompile(`(?i)password\s+for(?:\s*` + sanitizeIdent + `\s*=|[^=]*=)` + sanitizeValue)
+
+	sanitizeCreatePassword = regexp.MustCompile(`(?i)with\s+password` + sanitizeValue)
 )
 
 // Sanitize attempts to sanitize passwords out of a raw query.
@@ -20,28 +30,27 @@ var (
 // This function works on the raw query and attempts to retain the original input
 // as much as possible.
 func Sanitize(query string) string {
-	if matches := sanitizeSetPassword.FindAllStringSubmatchIndex(query, -1); matches != nil {
-		var buf strings.Builder
-		i := 0
-		for _, match := range matches {
-			buf.WriteString(query[i:match[2]])
-			buf.WriteString("[REDACTED]")
-			i = match[3]
-		}
-		buf.WriteString(query[i:])
-		query = buf.String()
-	}
+	query = sanitizeAll(sanitizeSetPassword, query)
+	return sanitizeAll(sanitizeCreatePassword, query)
+}
 
-	if matches := sanitizeCreatePassword.FindAllStringSubmatchIndex(query, -1); matches != nil {
-		var buf strings.Builder
-		i := 0
-		for _, match := range matches {
-			buf.WriteString(query[i:match[2]])
-			buf.WriteString("[REDACTED]")
-			i = match[3]
-		}
-		buf.WriteString(query[i:])
-		query = buf.String()
+// sanitizeAll replaces the password submatch of every match of re.
+func sanitizeAll(re *regexp.Regexp, query string) string {
+	matches := re.FindAllStringSubmatchIndex(query, -1)
+	if matches == nil {
+		return query
 	}
-	return query
+	var buf strings.Builder
+	i := 0
+	for _, match := range matches {
+		start, end := match[2], match[3]
+		if start < 0 {
+			start, end = match[4], match[5]
+		}
+		buf.WriteString(query[i:start])
+		buf.WriteString("[REDACTED]")
+		i = end
+	}
+	buf.WriteString(query[i:])
+	return buf.String()
 }
